@@ -511,3 +511,157 @@ def layered_spec(rng, max_dom=3, p_empty=0.0):
 
 def rules_of(rules, x):
     return [r for r in rules if r["lhs"] == x]
+
+LINSYS_VALS = [Fraction(0), Fraction(1, 4), Fraction(1, 2), Fraction(1)]
+
+def linear_system_spec(rng, nonlinear=False, max_flat=9):
+    """A linearly recursive system of k in {2,3} nonterminals, most of them NON-scalar (arity 1 or 2
+    over domains of size 1..3, possibly different node labels => rectangular Jacobian blocks):
+
+        S      -> init(u) Xa(u)                       (one or two such rules)
+        Xi(u)  -> T(u,v) Xj(v) [q(v)]                 dense block with exact zeros next to non-zeros
+        Xi(u)  -> D(u) Xj(u)                          diagonal block (same type only)
+        Xi(a,b)-> T(a,c) Xj(c,b)                      arity 2: block = T (x) I
+        Xi(u)  -> p(u)                                base rules, some cells exactly zero
+
+    for a random set of ordered pairs (i,j) -- self-loops (diagonal blocks J[i,i]) on a random subset,
+    usually a cycle through all Xi (one SCC eliminated block by block by multi_solve: a[x,z] :=
+    a[x,z] a[z,z]* is a solve with a MATRIX right-hand side), otherwise a block-triangular system
+    (several SCCs).  Pairs may get two rules (blocks accumulate).  Rule order and the positions of the
+    nonterminals are shuffled so that every elimination order occurs.  Weights are in {0, 1/4, 1/2,
+    1}, about 45% exact zeros, whole zero rows/columns/blocks included.
+    nonlinear=True adds one rule Xi -> Xj Xk c with two component edges (for the Newton stream)."""
+    functional = rng.random() < 0.5
+    n_nl = rng.choice([1, 1, 2])
+    nlabels = [rng.choice([2, 3, 3] if functional else [1, 2, 2, 2, 3]) for _ in range(n_nl)]
+    if max(nlabels) < 2: nlabels[0] = 2
+    k = rng.choice([2, 2, 3])
+    big = [i for i, s in enumerate(nlabels) if s >= 2]
+    types = []
+    for i in range(k):
+        r = rng.random()
+        if i < 2 or r < 0.6:
+            types.append([rng.choice(big)] if i < 2 else [rng.randrange(n_nl)])    # the first two are non-scalar
+        elif r < 0.8:
+            types.append([])
+        else:
+            types.append([rng.randrange(n_nl), rng.randrange(n_nl)])
+    if rng.random() < 0.25:
+        nl = rng.choice(big)
+        if nlabels[nl] == 2: types[rng.randrange(2)] = [nl, nl]
+    def size(t):
+        n = 1
+        for nl in t: n *= nlabels[nl]
+        return n
+    while sum(size(t) for t in types) > max_flat:
+        i = max(range(k), key=lambda i: size(types[i])); types[i] = types[i][:-1]
+    pos = list(range(1, k + 1)); rng.shuffle(pos)           # Xi is edge label pos[i]
+    elabels = [None] * (k + 1)
+    elabels[0] = dict(term=False, type=[])
+    for i in range(k): elabels[pos[i]] = dict(term=False, type=list(types[i]))
+    weights = {}; feats = set(["linsys"])
+    p_zero = rng.choice([0.3, 0.5, 0.65, 0.8])
+    def val(): return Fraction(0) if rng.random() < p_zero else rng.choice(LINSYS_VALS[1:])
+    def rows(shape): return nested(shape, val)
+    def new_term(ty, w=None):
+        elabels.append(dict(term=True, type=list(ty)))
+        el = len(elabels) - 1
+        weights[el] = w if w is not None else rows([nlabels[nl] for nl in ty])
+        return el
+    def mixed(w):
+        vs = list(flat(w)); return any(v == 0 for v in vs) and any(v != 0 for v in vs)
+    rules = []
+    # which ordered pairs get a rule
+    pairs = []
+    if rng.random() < 0.75:
+        cyc = list(range(k)); rng.shuffle(cyc)
+        pairs += [(cyc[i], cyc[(i + 1) % k]) for i in range(k)]
+        feats.add("linsys:one_scc")
+    for i in range(k):
+        if rng.random() < 0.65: pairs.append((i, i))
+        for j in range(k):
+            if i != j and rng.random() < 0.35: pairs.append((i, j))
+    pairs = sorted(set(pairs))
+    pairs += [p for p in pairs if rng.random() < 0.2]       # a second rule for the same block
+    blockw = {}; basew = {}
+    if functional:
+        # a (nearly) functional transition graph on the states (i, cell): every state has ONE successor state or
+        # terminates, so derivations are unique and every lost Jacobian entry shows in Bool and Viterbi as well
+        feats.add("linsys:functional")
+        import itertools
+        cells = {i: list(itertools.product(*[range(nlabels[nl]) for nl in types[i]])) for i in range(k)}
+        states = [(i, c) for i in range(k) for c in cells[i]]
+        def zeros(t): return nested([nlabels[nl] for nl in t], lambda: Fraction(0))
+        def put(w, idx, v):
+            for a in idx[:-1]: w = w[a]
+            w[idx[-1]] = v
+        def entry(i, j, c, c2):
+            if (i, j) not in blockw: blockw[(i, j)] = zeros(types[i] + types[j])
+            if types[i] + types[j]: put(blockw[(i, j)], c + c2, rng.choice(LINSYS_VALS[1:]))
+            else: blockw[(i, j)] = rng.choice(LINSYS_VALS[1:])
+        for (i, j) in sorted(set(pairs)):
+            if i == j:
+                # walking inside Xi: a partial permutation of its cells (off-diagonal entries of the diagonal block)
+                perm = list(cells[i]); rng.shuffle(perm)
+                for c, c2 in zip(cells[i], perm):
+                    if rng.random() < 0.8: entry(i, i, c, c2)
+            else:
+                # entering Xj from Xi: one or two entry points
+                for _ in range(rng.choice([1, 1, 2])): entry(i, j, rng.choice(cells[i]), rng.choice(cells[j]))
+        for _ in range(rng.choice([1, 1, 2])):
+            (i, c) = rng.choice(states)
+            if i not in basew: basew[i] = zeros(types[i])
+            if types[i]: put(basew[i], c, rng.choice(LINSYS_VALS[1:]))
+            else: basew[i] = rng.choice(LINSYS_VALS[1:])
+        pairs = sorted(blockw)
+    n_self = 0
+    for (i, j) in pairs:
+        ti, tj = types[i], types[j]
+        r = rng.random()
+        if functional:
+            t = new_term(ti + tj, blockw[(i, j)])
+            nodes = list(ti) + list(tj)
+            edges = [(t, list(range(len(nodes)))), (pos[j], list(range(len(ti), len(nodes))))]
+            rng.shuffle(edges)
+            rules.append(dict(lhs=pos[i], nodes=nodes, edges=edges, ext=list(range(len(ti)))))
+            if mixed(weights[t]) and len(ti) >= 1 and len(tj) >= 1: feats.add("linsys:mixed_zero_block")
+        elif ti == tj and len(ti) == 1 and r < 0.25:
+            d = new_term(ti)                                   # Xi(u) -> D(u) Xj(u)
+            rules.append(dict(lhs=pos[i], nodes=list(ti), edges=[(d, [0]), (pos[j], [0])], ext=[0]))
+            feats.add("linsys:diag_block")
+        elif len(ti) == 2 and len(tj) == 2 and ti[1] == tj[1]:
+            t = new_term([ti[0], tj[0]])                       # Xi(a,b) -> T(a,c) Xj(c,b)
+            rules.append(dict(lhs=pos[i], nodes=[ti[0], ti[1], tj[0]], edges=[(t, [0, 2]), (pos[j], [2, 1])], ext=[0, 1]))
+            feats.add("linsys:arity2_block")
+        else:
+            t = new_term(ti + tj)                              # Xi(u..) -> T(u.., v..) Xj(v..)
+            nodes = list(ti) + list(tj)
+            edges = [(t, list(range(len(nodes)))), (pos[j], list(range(len(ti), len(nodes))))]
+            if tj and rng.random() < 0.2:
+                edges.append((new_term([tj[0]]), [len(ti)]))
+            rng.shuffle(edges)
+            rules.append(dict(lhs=pos[i], nodes=nodes, edges=edges, ext=list(range(len(ti)))))
+            if mixed(weights[t]) and len(ti) >= 1 and len(tj) >= 1: feats.add("linsys:mixed_zero_block")
+        if i == j: n_self += 1
+    if n_self: feats.add("linsys:self_loop")
+    base = sorted(basew) if functional else ([i for i in range(k) if rng.random() < 0.6] or [rng.randrange(k)])
+    for i in base:
+        p = new_term(types[i], basew.get(i))
+        rules.append(dict(lhs=pos[i], nodes=list(types[i]), edges=[(p, list(range(len(types[i]))))], ext=list(range(len(types[i])))))
+    if nonlinear:
+        i, j, l = rng.randrange(k), rng.randrange(k), rng.randrange(k)
+        nodes = list(types[i]) + list(types[j]) + list(types[l])
+        a, b = len(types[i]), len(types[i]) + len(types[j])
+        c = new_term(nodes, nested([nlabels[nl] for nl in nodes], lambda: rng.choice([Fraction(0), Fraction(1, 4), Fraction(1, 2)])))
+        rules.append(dict(lhs=pos[i], nodes=nodes, edges=[(pos[j], list(range(a, b))), (pos[l], list(range(b, len(nodes)))), (c, list(range(len(nodes))))],
+                          ext=list(range(a))))
+        feats.add("linsys:nonlinear_rule")
+    rng.shuffle(rules)
+    for a in rng.sample(range(k), rng.choice([1, 1, 2])):      # S -> init(u..) Xa(u..)
+        init = new_term(types[a])
+        n = len(types[a])
+        rules.insert(rng.randint(0, len(rules)), dict(lhs=0, nodes=list(types[a]), edges=[(init, list(range(n))), (pos[a], list(range(n)))], ext=[]))
+    if 1 in nlabels: feats.add("linsys:size1_domain")
+    if any(t == [] for t in types): feats.add("linsys:scalar_member")
+    if len({tuple(t) for t in types}) > 1: feats.add("linsys:rectangular_blocks")
+    return dict(nlabels=nlabels, elabels=elabels, start=0, rules=rules, weights=weights, features=sorted(feats), recursive=True)
